@@ -26,6 +26,13 @@ func runC03(c *Ctx) {
 		if cfg.Length == cfg.CoreSize && r.Chance(1, 2) {
 			o.ExactLines = cfg.Length // a program that fills its tiny core completely
 		}
+		if cfg.Length >= 300 && cfg.CoreSize > 1000 && r.Chance(1, 8) {
+			// a long program with a label on every line: more than 256 lines and labels
+			o.ExactLines = r.Range(257, 300)
+			o.ManyLabels = true
+			o.UseLabels = true
+			c.Inc("long_programs_with_a_label_per_line")
+		}
 		p := asm.GenProg(r, o)
 		mn, err := p.Meaning()
 		if err != nil {
